@@ -175,6 +175,50 @@ def rule_G(run, prog):
                                "the running number of a vibronic state, not the index of the molecule excited in it (wrong "
                                "site, or IndexError, as soon as a molecule has vibrational levels)" % (norm(arg) if arg is not None else None),
                        loc=f.loc(c), sample={"call": norm(c), "loop": norm(lp.iter) if lp is not None else None})
+    # the index handed over counts molecules from zero (elinds - 1), as the matrix of correlation functions does: the
+    # getter of the system-bath interaction passes it on as it is
+    from .c16 import getter_forwards
+    sb = prog.cls("quantarhei.qm.liouvillespace.systembathinteraction.SystemBathInteraction")
+    g = prog.find_method(sb, "get_reorganization_energy")
+    if g is None:
+        raise AnalysisError("SystemBathInteraction.get_reorganization_energy not found")
+    prog.consulted.add(g.relpath)
+    fw, bad, rebind = getter_forwards(g)
+    # the two sides may agree on another convention: what counts is the sum of the offsets (elinds counts the ground
+    # state as 0, the matrix of correlation functions counts molecules from 0: the sum is -1)
+    first = [a.arg for a in g.node.args.args if a.arg != "self"][:1]
+
+    def _off(e, name):
+        if isinstance(e, ast.Name) and e.id == name:
+            return 0
+        if isinstance(e, ast.BinOp) and isinstance(e.op, (ast.Add, ast.Sub)) and isinstance(e.right, ast.Constant) \
+                and isinstance(e.right.value, int):
+            b_ = _off(e.left, name)
+            if b_ is not None:
+                return b_ + (e.right.value if isinstance(e.op, ast.Add) else -e.right.value)
+        return None
+
+    callee_off = None
+    if fw and first and not rebind:
+        offs = {_off(c_.args[0], first[0]) for c_ in fw if c_.args}
+        callee_off = offs.pop() if len(offs) == 1 else None
+    caller_offs = set()
+    for c in calls:
+        a0 = c.args[0] if c.args else None
+        o_ = None
+        if isinstance(a0, ast.Subscript) and norm(a0.value) == "self.elinds":
+            o_ = 0
+        elif isinstance(a0, ast.BinOp) and isinstance(a0.left, ast.Subscript) and norm(a0.left.value) == "self.elinds" \
+                and isinstance(a0.op, (ast.Add, ast.Sub)) and isinstance(a0.right, ast.Constant) and isinstance(a0.right.value, int):
+            o_ = a0.right.value if isinstance(a0.op, ast.Add) else -a0.right.value
+        caller_offs.add(o_)
+    agree = callee_off is not None and caller_offs and None not in caller_offs and all(o_ + callee_off == -1 for o_ in caller_offs)
+    run.obligation(rid, "SystemBathInteraction.get_reorganization_energy", bool(fw) and (agree or (not bad and not rebind and caller_offs == {-1})),
+                   key="forwards-index",
+                   message="the builder asks for the reorganisation energy of molecule number elinds-1 (counted from zero, as the "
+                           "matrix of correlation functions counts), and SystemBathInteraction.get_reorganization_energy does not "
+                           "hand that index on unchanged: %s - the energy subtracted is the one of another molecule"
+                           % (bad + rebind), loc=g.loc(), sample={"forwarding_calls": len(fw)})
 
 
 def _defs(func, name, before=None):
